@@ -23,6 +23,7 @@ package tally
 import (
 	"bytes"
 	"sync"
+	"unicode/utf8"
 )
 
 var (
@@ -156,6 +157,15 @@ func (c *ValidCharacters) sanitizeFn(repChar rune) SanitizeFn {
 				if c.Characters[i] == ch {
 					validCurr = true
 					break
+				}
+			}
+
+			// an invalid byte decodes to utf8.RuneError with width 1; even when
+			// U+FFFD itself is an allowed character the byte must be replaced,
+			// not passed through.
+			if validCurr && ch == utf8.RuneError {
+				if _, width := utf8.DecodeRuneInString(value[idx:]); width == 1 {
+					validCurr = false
 				}
 			}
 
